@@ -323,7 +323,9 @@ def t_sched_child(N, T, P, dq, dr):
 
 
 def sched_fixture(N, dq, dr):
-	sets = [[3, 7], [], [3], [3, 7, 11, 15], [1], [3, 5, 7]][:N]
+	# consecutive duplicates (incl. two empty ones) on purpose: an iteration that looks at its neighbour's input or output is exposed when
+	# the neighbour has not run yet
+	sets = [[3, 7], [3, 7], [], [], [3, 7, 11, 15], [1], [1]][:N]
 	query = np.array([3, 7, 9], dtype=dq)
 	values = np.concatenate([np.array(s, dtype=dr) for s in sets]) if sets else np.array([], dtype=dr)
 	bounds = np.zeros(N + 1, dtype=np.intp)
